@@ -324,17 +324,29 @@ def run_cases(ctx, name, header, case_terms, per_shard=400, timeout=900, fn="che
 
     bad = []
     broken = []
+
+    def absorb(k, rc, out):
+        if rc != 0:
+            return "shard %d: %s" % (k, out[-800:])
+        m = re.search(r'"BEGIN-BAD".*?bad\s*=\s*(.*?):\s*list \(N \* N\)', out, flags=re.S)
+        if not m:
+            return "shard %d: unparsable output %s" % (k, out[-400:])
+        for a, b in re.findall(r"\(\s*(\d+)(?:%N)?\s*,\s*(\d+)(?:%N)?\s*\)", m.group(1)):
+            bad.append((k * per_shard + int(a), int(b)))
+        return None
+
+    retry = []
     with ThreadPoolExecutor(NCPU) as ex:
         for k, (rc, out) in enumerate(ex.map(one, files)):
-            if rc != 0:
-                broken.append("shard %d: %s" % (k, out[-800:]))
-                continue
-            m = re.search(r'"BEGIN-BAD".*?bad\s*=\s*(.*?):\s*list \(N \* N\)', out, flags=re.S)
-            if not m:
-                broken.append("shard %d: unparsable output %s" % (k, out[-400:]))
-                continue
-            for a, b in re.findall(r"\(\s*(\d+)(?:%N)?\s*,\s*(\d+)(?:%N)?\s*\)", m.group(1)):
-                bad.append((k * per_shard + int(a), int(b)))
+            err = absorb(k, rc, out)
+            if err:
+                retry.append(k)
+    # a shard that was killed or timed out under load gets one more chance, on its own
+    for k in retry:
+        rc, out = one(files[k])
+        err = absorb(k, rc, out)
+        if err:
+            broken.append(err)
     ctx.oblige("cases-evaluate:" + name, "correspondence", not broken, "\n".join(broken)[:2000])
     return bad
 
